@@ -1756,6 +1756,7 @@ func TestProp(t *testing.T) {
 	for _, et := range kcrypto.Etypes {
 		r.Require(fmt.Sprintf("served_canonical_et%d", et), 10)
 	}
+	e.configuredAddressCases()
 	r.Require("identity_checked", 500)
 	r.Require("refused_agreed", 5000)
 	for _, d := range defects {
